@@ -136,6 +136,21 @@ theorem unique_value (n v w : Str) (hs : Headers) (hc : count n hs = 1) (hg : ge
       · cases e; exact absurd rfl h
       · exact ih hc' hg2 e
 
+theorem count_remove_other (n m : Str) (hs : Headers) (h : m ≠ n) : count m (remove n hs) = count m hs := by
+  unfold count remove
+  rw [List.filter_filter]
+  congr 1
+  apply List.filter_congr
+  intro kv _
+  by_cases hk : kv.1 = m
+  · have : kv.1 ≠ n := by rw [hk]; exact h
+    simp [hk, h]
+  · simp [hk]
+
+theorem get?_remove_other (n m : Str) (hs : Headers) (h : m ≠ n) : get? m (remove n hs) = get? m hs := by
+  unfold get? remove
+  rw [find?_filter_ne n m hs h]
+
 /-- generic: filtering out other keys does not change what `find?` by key returns -/
 theorem find?_filter_ne' {β : Type} (l : List (Nat × β)) (i id : Nat) (h : i ≠ id) :
     (l.filter fun kv => kv.1 ≠ i).find? (fun kv => kv.1 = id) = l.find? (fun kv => kv.1 = id) := by
